@@ -479,6 +479,10 @@ class Expr(Node):
             if self.type.is_numeric:
                 literal = NumericLiteral(value, self.type)
             else:
+                if len(value) > 65535:
+                    # longer than a string literal can be in a module;
+                    # leave the concatenation to run time
+                    return self
                 literal = StringLiteral(value)
             return literal
         return self
